@@ -692,4 +692,328 @@ theorem binClass_Log : BinClass "LogOperation" "log" :=
 def binFuel (st : BinSt α) (sl sr : ASig α) : Nat :=
   2 * (st.buf1.length + sl.length + st.buf2.length + sr.length) + 4
 
+/-! ### the methods handed to `intersection` -/
+
+section methods
+variable (fuel k : Nat) (a b : α)
+
+theorem meth_conjunction :
+    callAt Gen.DenseOn.fns fuel (k + 1) "conjunction" [.val a, .val b] = .ok (.val (pmin a b) : DV α) := by
+  rw [callAt_fn _ _ _ _ Gen.DenseOn.fn_conjunction _ rfl]
+  simp [runFn, Gen.DenseOn.fn_conjunction, exec, evalE, getLoc, resolve, List.lookup,
+    callAt_builtin Gen.DenseOn.fns fuel k "min" _ rfl, builtin, isTimeLike, toVal]
+
+theorem meth_disjunction :
+    callAt Gen.DenseOn.fns fuel (k + 1) "disjunction" [.val a, .val b] = .ok (.val (pmax a b) : DV α) := by
+  rw [callAt_fn _ _ _ _ Gen.DenseOn.fn_disjunction _ rfl]
+  simp [runFn, Gen.DenseOn.fn_disjunction, exec, evalE, getLoc, resolve, List.lookup,
+    callAt_builtin Gen.DenseOn.fns fuel k "max" _ rfl, builtin, isTimeLike, toVal]
+
+theorem meth_implication :
+    callAt Gen.DenseOn.fns fuel (k + 1) "implication" [.val a, .val b] = .ok (.val (pmax (Val.neg a) b) : DV α) := by
+  rw [callAt_fn _ _ _ _ Gen.DenseOn.fn_implication _ rfl]
+  simp [runFn, Gen.DenseOn.fn_implication, exec, evalE, evalNeg, getLoc, resolve, List.lookup,
+    callAt_builtin Gen.DenseOn.fns fuel k "max" _ rfl, builtin, isTimeLike, toVal]
+
+theorem meth_xor :
+    callAt Gen.DenseOn.fns fuel (k + 1) "xor" [.val a, .val b] = .ok (.val (Val.abs (Val.sub a b)) : DV α) := by
+  rw [callAt_fn _ _ _ _ Gen.DenseOn.fn_xor _ rfl]
+  simp [runFn, Gen.DenseOn.fn_xor, exec, evalE, evalBin, isCmp, arith, isTimeLike, isValLike, getLoc, resolve, List.lookup,
+    callAt_builtin Gen.DenseOn.fns fuel k "abs" _ rfl, builtin, toVal]
+
+theorem meth_iff :
+    callAt Gen.DenseOn.fns fuel (k + 1) "iff" [.val a, .val b] = .ok (.val (Val.neg (Val.abs (Val.sub a b))) : DV α) := by
+  rw [callAt_fn _ _ _ _ Gen.DenseOn.fn_iff _ rfl]
+  simp [runFn, Gen.DenseOn.fn_iff, exec, evalE, evalNeg, evalBin, isCmp, arith, isTimeLike, isValLike, getLoc, resolve,
+    List.lookup, callAt_builtin Gen.DenseOn.fns fuel k "abs" _ rfl, builtin, toVal]
+
+theorem meth_addition :
+    callAt Gen.DenseOn.fns fuel (k + 1) "addition" [.val a, .val b] = .ok (.val (Val.add a b) : DV α) := by
+  rw [callAt_fn _ _ _ _ Gen.DenseOn.fn_addition _ rfl]
+  simp [runFn, Gen.DenseOn.fn_addition, exec, evalE, evalBin, isCmp, arith, isTimeLike, isValLike, getLoc, List.lookup, toVal]
+
+theorem meth_subtraction :
+    callAt Gen.DenseOn.fns fuel (k + 1) "subtraction" [.val a, .val b] = .ok (.val (Val.sub a b) : DV α) := by
+  rw [callAt_fn _ _ _ _ Gen.DenseOn.fn_subtraction _ rfl]
+  simp [runFn, Gen.DenseOn.fn_subtraction, exec, evalE, evalBin, isCmp, arith, isTimeLike, isValLike, getLoc, List.lookup,
+    toVal]
+
+theorem meth_multiplication :
+    callAt Gen.DenseOn.fns fuel (k + 1) "multiplication" [.val a, .val b] = .ok (.val (Val.mul a b) : DV α) := by
+  rw [callAt_fn _ _ _ _ Gen.DenseOn.fn_multiplication _ rfl]
+  simp [runFn, Gen.DenseOn.fn_multiplication, exec, evalE, evalBin, isCmp, arith, isTimeLike, isValLike, getLoc,
+    List.lookup, toVal]
+
+theorem meth_division :
+    callAt Gen.DenseOn.fns fuel (k + 1) "division" [.val a, .val b] = .ok (.val (Val.div a b) : DV α) := by
+  rw [callAt_fn _ _ _ _ Gen.DenseOn.fn_division _ rfl]
+  simp [runFn, Gen.DenseOn.fn_division, exec, evalE, evalBin, isCmp, arith, isTimeLike, isValLike, getLoc, resolve,
+    List.lookup, callAt_builtin Gen.DenseOn.fns fuel k "float" _ rfl, builtin, toVal]
+
+theorem meth_power :
+    callAt Gen.DenseOn.fns fuel (k + 1) "power" [.val a, .val b] = .ok (.val (Val.pow a b) : DV α) := by
+  rw [callAt_fn _ _ _ _ Gen.DenseOn.fn_power _ rfl]
+  simp [runFn, Gen.DenseOn.fn_power, exec, evalE, getLoc, resolve, List.lookup,
+    callAt_builtin Gen.DenseOn.fns fuel k "math.pow" _ rfl, builtin, toVal]
+
+theorem meth_log :
+    callAt Gen.DenseOn.fns fuel (k + 1) "log" [.val a, .val b] = .ok (.val (Val.log a b) : DV α) := by
+  rw [callAt_fn _ _ _ _ Gen.DenseOn.fn_log _ rfl]
+  simp [runFn, Gen.DenseOn.fn_log, exec, evalE, getLoc, resolve, List.lookup,
+    callAt_builtin Gen.DenseOn.fns fuel k "math.log" _ rfl, builtin, toVal]
+
+end methods
+
+/-! ### construction -/
+
+def init3 : S :=
+  .seq (.setLoc "self.sample_left_buf" .emptyList) (.seq (.setLoc "self.sample_right_buf" .emptyList)
+    (.setLoc "self.last_output" .emptyList))
+
+def init4 : S :=
+  .seq (.setLoc "self.sample_left_buf" .emptyList) (.seq (.setLoc "self.sample_right_buf" .emptyList)
+    (.seq (.setLoc "self.sample_last_buf" .emptyList) (.setLoc "self.last_output" .emptyList)))
+
+def init2 : S :=
+  .seq (.setLoc "self.sample_left_buf" .emptyList) (.setLoc "self.sample_right_buf" .emptyList)
+
+/-- `cls.__init__(self)` sets the buffers and `self.last_output` to `[]` -/
+def InitClass (cls : String) : Prop :=
+  ∃ fn, Gen.DenseOn.fns.lookup (cls ++ ".__init__") = some fn ∧ fn.isMethod = true ∧ fn.params = ["self"] ∧
+    (fn.body = init3 ∨ fn.body = init4)
+
+theorem initClass_And : InitClass "AndOperation" := ⟨Gen.DenseOn.AndOperation_init, rfl, rfl, rfl, .inr rfl⟩
+theorem initClass_Or : InitClass "OrOperation" := ⟨Gen.DenseOn.OrOperation_init, rfl, rfl, rfl, .inl rfl⟩
+theorem initClass_Implies : InitClass "ImpliesOperation" := ⟨Gen.DenseOn.ImpliesOperation_init, rfl, rfl, rfl, .inl rfl⟩
+theorem initClass_Iff : InitClass "IffOperation" := ⟨Gen.DenseOn.IffOperation_init, rfl, rfl, rfl, .inl rfl⟩
+theorem initClass_Xor : InitClass "XorOperation" := ⟨Gen.DenseOn.XorOperation_init, rfl, rfl, rfl, .inl rfl⟩
+theorem initClass_Addition : InitClass "AdditionOperation" := ⟨Gen.DenseOn.AdditionOperation_init, rfl, rfl, rfl, .inl rfl⟩
+theorem initClass_Subtraction : InitClass "SubtractionOperation" :=
+  ⟨Gen.DenseOn.SubtractionOperation_init, rfl, rfl, rfl, .inl rfl⟩
+theorem initClass_Division : InitClass "DivisionOperation" := ⟨Gen.DenseOn.DivisionOperation_init, rfl, rfl, rfl, .inl rfl⟩
+theorem initClass_Pow : InitClass "PowOperation" := ⟨Gen.DenseOn.PowOperation_init, rfl, rfl, rfl, .inl rfl⟩
+theorem initClass_Log : InitClass "LogOperation" := ⟨Gen.DenseOn.LogOperation_init, rfl, rfl, rfl, .inl rfl⟩
+
+theorem Multiplication_init_body : Gen.DenseOn.MultiplicationOperation_init.body = init2 := rfl
+
+/-! ### `PredicateOperation` -/
+
+def predChain : S :=
+  .ite (.bin .eq (.loc "self.comparison_op") (.cmpc .eq))
+    (.setLoc "out_val" (.neg (.call1 "abs" (.idx (.loc "i") (.int 1)))))
+  (.ite (.bin .eq (.loc "self.comparison_op") (.cmpc .ne))
+    (.setLoc "out_val" (.call1 "abs" (.idx (.loc "i") (.int 1))))
+  (.ite (.or_ (.bin .eq (.loc "self.comparison_op") (.cmpc .le)) (.bin .eq (.loc "self.comparison_op") (.cmpc .lt)))
+    (.setLoc "out_val" (.neg (.idx (.loc "i") (.int 1))))
+  (.ite (.or_ (.bin .eq (.loc "self.comparison_op") (.cmpc .ge)) (.bin .eq (.loc "self.comparison_op") (.cmpc .gt)))
+    (.setLoc "out_val" (.idx (.loc "i") (.int 1)))
+    (.setLoc "out_val" .nan))))
+
+def predLoopBody : S :=
+  .seq predChain (.seq (.appendLoc "sample_result" (.list2 (.idx (.loc "i") (.int 0)) (.loc "out_val")))
+    (.setLoc "prev" (.loc "out_val")))
+
+def predRest : S :=
+  .seq (.setLoc "self.subtraction_output" (.loc "input_list")) (.seq (.setLoc "prev" .nan)
+    (.seq (.forIn "i" (.loc "input_list") predLoopBody) (.ret (.loc "sample_result"))))
+
+def predBody : S :=
+  .seq (.setLoc "sample_result" .emptyList)
+    (.seq (.mcall (some "input_list") "self.sub" "update" [(.loc "sample_left"), (.loc "sample_right")]) predRest)
+
+theorem Pred_body : Gen.DenseOn.PredicateOperation_update.body = predBody := rfl
+
+def predInit : S :=
+  .seq (.new "self.sub" "SubtractionOperation" []) (.seq (.setLoc "self.comparison_op" (.loc "comparison_op"))
+    (.setLoc "self.subtraction_output" .emptyList))
+
+theorem Pred_init_body : Gen.DenseOn.PredicateOperation_init.body = predInit := rfl
+
+theorem cmpDV_eq_cmp (a b : Cmp) : cmpDV (α := α) .eq (.cmp a) (.cmp b) = .ok (decide (a = b)) := by
+  simp [cmpDV]
+
+section pred
+variable (call : Call α) (fuel : Nat)
+
+theorem exec_mcall2_ok (t o m : String) (a1 a2 : E) (env : Env α) (v1 v2 : DV α) (cls : String) (store : Env α)
+    (o' r : DV α) (h1 : evalE call env a1 = .ok v1) (h2 : evalE call env a2 = .ok v2)
+    (ho : getLoc o env = .ok (.obj cls store))
+    (hc : call (cls ++ "." ++ m) [.obj cls store, v1, v2] = .ok (.list [o', r])) :
+    exec call fuel (.mcall (some t) o m [a1, a2]) env = .ok (setLoc t r (setLoc o o' env), .none) := by
+  simp [exec, h1, h2, ho, hc]
+
+theorem exec_mcall2_err (t o m : String) (a1 a2 : E) (env : Env α) (v1 v2 : DV α) (cls : String) (store : Env α)
+    (e : PyErr) (h1 : evalE call env a1 = .ok v1) (h2 : evalE call env a2 = .ok v2)
+    (ho : getLoc o env = .ok (.obj cls store))
+    (hc : call (cls ++ "." ++ m) [.obj cls store, v1, v2] = .error e) :
+    exec call fuel (.mcall (some t) o m [a1, a2]) env = .error e := by
+  simp [exec, h1, h2, ho, hc]
+
+theorem exec_new0_ok (t cls : String) (env : Env α) (o' r : DV α)
+    (hc : call (cls ++ ".__init__") [.obj cls []] = .ok (.list [o', r])) :
+    exec call fuel (.new t cls []) env = .ok (setLoc t o' env, .none) := by
+  simp [exec, hc]
+
+theorem predLoopBody_spec (habs : ∀ x : α, call "abs" [.val x] = .ok (.val (Val.abs x))) (env : Env α) (c : Cmp)
+    (acc : ASig α) (t : Tm) (x : α)
+    (hc : getLoc "self.comparison_op" env = .ok (.cmp c)) (hi : getLoc "i" env = .ok (.smp t (.val x)))
+    (hr : getLoc "sample_result" env = .ok (encSig acc)) (hres : getLoc "abs" env = .error .key) :
+    exec call fuel predLoopBody env =
+      .ok (setLoc "prev" (.val (cmpOfDiff c x)) (setLoc "sample_result" (encSig (acc ++ [(t, cmpOfDiff c x)]))
+        (setLoc "out_val" (.val (cmpOfDiff c x)) env)), .none) := by
+  cases c <;>
+    simp [predLoopBody, predChain, exec, evalE, hc, hi, hr, resolve_of_key hres, habs, evalBin, isCmp, cmpDV_eq_cmp,
+      Except.map, truthy, evalIdx_smp0, evalIdx_smp1, evalNeg, mkList2, toPayload, cmpOfDiff, encSig, encSmp]
+
+theorem predLoop_spec (habs : ∀ x : α, call "abs" [.val x] = .ok (.val (Val.abs x))) (c : Cmp) (d : ASig α) :
+    ∀ (env : Env α) (acc : ASig α),
+      getLoc "self.comparison_op" env = .ok (.cmp c) → getLoc "sample_result" env = .ok (encSig acc) →
+      getLoc "abs" env = .error .key →
+      ∃ env', forLoop (fun p env => setLoc "i" p.1 env) (exec call fuel predLoopBody)
+            ((d.map encSmp).map (fun v => (v, 0))) env = .ok (env', .none) ∧
+        getLoc "sample_result" env' = .ok (encSig (acc ++ d.map (fun p => (p.1, cmpOfDiff c p.2)))) ∧
+        Frame ["i", "out_val", "sample_result", "prev"] env env' := by
+  induction d with
+  | nil =>
+      intro env acc hc hr hres
+      exact ⟨env, rfl, by simpa using hr, Frame.refl _ _⟩
+  | cons p d ih =>
+      obtain ⟨t, x⟩ := p
+      intro env acc hc hr hres
+      have hb := predLoopBody_spec call fuel habs (setLoc "i" (.smp t (.val x)) env) c acc t x
+        (by simpa using hc) (by simp) (by simpa using hr) (by simpa using hres)
+      generalize henv1 : setLoc "prev" (DV.val (cmpOfDiff c x)) (setLoc "sample_result"
+        (encSig (acc ++ [(t, cmpOfDiff c x)])) (setLoc "out_val" (DV.val (cmpOfDiff c x))
+          (setLoc "i" (DV.smp t (DV.val x)) env))) = env1 at hb
+      have f1 : Frame ["i", "out_val", "sample_result", "prev"] env env1 := by
+        intro k' hk
+        simp only [List.mem_cons, List.not_mem_nil, or_false, not_or] at hk
+        rw [← henv1]
+        simp [hk.1, hk.2.1, hk.2.2.1, hk.2.2.2]
+      obtain ⟨env', hx, hr', f2⟩ := ih env1 (acc ++ [(t, cmpOfDiff c x)])
+        (by rw [f1 _ (by simp)]; exact hc) (by rw [← henv1]; simp) (by rw [f1 _ (by simp)]; exact hres)
+      refine ⟨env', ?_, ?_, ?_⟩
+      · simp only [List.map_cons, forLoop_cons, encSmp]
+        simp only [encSmp] at hx
+        simp [hb, hx]
+      · simpa using hr'
+      · intro k' hk; rw [f2 _ hk, f1 _ hk]
+
+end pred
+
+/-- the object `o` is a `PredicateOperation(c)` whose subtraction object is in the state `st` -/
+def PredRel (c : Cmp) (st : BinSt α) (o : DV α) : Prop :=
+  ∃ store sub, o = .obj "PredicateOperation" store ∧
+    store.lookup "self.sub" = some sub ∧ BinRel "SubtractionOperation" st sub ∧
+    store.lookup "self.comparison_op" = some (.cmp c) ∧
+    (∃ d : ASig α, store.lookup "self.subtraction_output" = some (encSig d)) ∧
+    SelfKeys store
+
 end Rtamt.Py.DnOn.GOnBin
+
+/-! ## main theorems: the binary point-wise classes -/
+
+namespace Rtamt.Py.DnOn
+open Rtamt Val Rtamt.Dense Rtamt.Dense.Alg Rtamt.Dense.AlgOn GOnBin
+
+set_option linter.unusedSectionVars false
+set_option linter.unusedVariables false
+set_option linter.unusedSimpArgs false
+
+variable {α : Type} [Val α]
+
+/-- (1) construction: `Cls()` is in the initial state (ten classes; `MultiplicationOperation`: `gen_mul_init`) -/
+theorem gen_bin_init (fuel k : Nat) (cls : String) (hcls : InitClass cls) :
+    ∃ o : DV α, callAt Gen.DenseOn.fns fuel (k + 1) (cls ++ ".__init__") [.obj cls []] = .ok (.list [o, .none]) ∧
+      BinRel cls {} o := by
+  obtain ⟨fn, hlook, hmeth, hpar, hbody⟩ := hcls
+  rw [callAt_fn _ _ _ _ fn _ hlook]
+  rcases hbody with hbody | hbody
+  · have hx : exec (callAt (α := α) Gen.DenseOn.fns fuel k) fuel fn.body ([] ++ (fn.params.drop 1).zip []) =
+        .ok ([("self.sample_left_buf", .list []), ("self.sample_right_buf", .list []), ("self.last_output", .list [])],
+          .none) := by
+      rw [hbody, hpar]; simp [init3, exec, evalE, setLoc]
+    exact ⟨_, runFn_method_none _ fuel fn hmeth cls [] [] (by rw [hpar]; rfl) _ hx,
+      binRel_of_env cls {} _ (by simp [encSig]) (by simp [encSig]) (by simp [encOptSmp])⟩
+  · have hx : exec (callAt (α := α) Gen.DenseOn.fns fuel k) fuel fn.body ([] ++ (fn.params.drop 1).zip []) =
+        .ok ([("self.sample_left_buf", .list []), ("self.sample_right_buf", .list []), ("self.sample_last_buf", .list []),
+          ("self.last_output", .list [])], .none) := by
+      rw [hbody, hpar]; simp [init4, exec, evalE, setLoc]
+    exact ⟨_, runFn_method_none _ fuel fn hmeth cls [] [] (by rw [hpar]; rfl) _ hx,
+      binRel_of_env cls {} _ (by simp [encSig]) (by simp [encSig]) (by simp [encOptSmp])⟩
+
+/-- (1) for `MultiplicationOperation`: its `__init__` does not set `self.last_output` -/
+theorem gen_mul_init (fuel k : Nat) :
+    ∃ o : DV α, callAt Gen.DenseOn.fns fuel (k + 1) "MultiplicationOperation.__init__"
+        [.obj "MultiplicationOperation" []] = .ok (.list [o, .none]) ∧
+      BinRelNL "MultiplicationOperation" {} o := by
+  rw [callAt_fn _ _ _ _ Gen.DenseOn.MultiplicationOperation_init _ rfl]
+  have hx : exec (callAt (α := α) Gen.DenseOn.fns fuel k) fuel Gen.DenseOn.MultiplicationOperation_init.body
+      ([] ++ (Gen.DenseOn.MultiplicationOperation_init.params.drop 1).zip []) =
+      .ok ([("self.sample_left_buf", .list []), ("self.sample_right_buf", .list [])], .none) := by
+    rw [Multiplication_init_body]; simp [init2, exec, evalE, setLoc, Gen.DenseOn.MultiplicationOperation_init]
+  refine ⟨_, runFn_method_none _ fuel _ rfl "MultiplicationOperation" [] [] rfl _ hx, _, rfl, ?_, ?_, selfKeys_filter _⟩
+  · rw [lookup_filter_self _ _ (by simp [isSelfKey])]; rfl
+  · rw [lookup_filter_self _ _ (by simp [isSelfKey])]; rfl
+
+/-- (2) `Cls.update` of the ten classes with the common body -/
+theorem gen_bin_update (fuel k : Nat) (cls m : String) (hcls : BinClass cls m) (f : α → α → α)
+    (hI : InterOnSpec α fuel k)
+    (hm : ∀ a b, callAt Gen.DenseOn.fns fuel (k + 1) m [.val a, .val b] = .ok (.val (f a b)))
+    (st : BinSt α) (o : DV α) (hrel : BinRel cls st o) (sl sr : ASig α) (hfuel : binFuel st sl sr ≤ fuel) :
+    match binUpdate f st sl sr with
+    | .ok (st', out) =>
+        ∃ o', callAt Gen.DenseOn.fns fuel (k + 3) (cls ++ ".update") [o, encSig sl, encSig sr] =
+            .ok (.list [o', encSig out]) ∧ BinRel cls st' o'
+    | .error e => e ≠ .type →
+        callAt Gen.DenseOn.fns fuel (k + 3) (cls ++ ".update") [o, encSig sl, encSig sr] = .error e := by
+  obtain ⟨fn, fin, hlook, hmeth, hpar, hbody, hfin⟩ := hcls
+  obtain ⟨store, rfl, s1, s2, s3, hk⟩ := hrel
+  rw [callAt_fn _ _ _ _ fn _ hlook]
+  obtain ⟨e1, e2, e3, _⟩ := env0_facts store hk (encSig sl) (encSig sr)
+  have hs := binBodyF_spec fuel k hI m f hm fin hfin
+    (store ++ [("sample_left", encSig sl), ("sample_right", encSig sr)]) st sl sr
+    (getLoc_append_left s1) (getLoc_append_left s2) e1 e2 (getLoc_append_left s3) e3
+    (by unfold binFuel at hfuel; exact hfuel)
+  have henv : store ++ (fn.params.drop 1).zip [encSig sl, encSig sr] =
+      store ++ [("sample_left", encSig sl), ("sample_right", encSig sr)] := by rw [hpar]; rfl
+  revert hs
+  cases hb : binUpdate f st sl sr with
+  | error e =>
+      intro hs hne
+      exact runFn_method_err _ fuel fn hmeth cls store _ (by rw [hpar]; rfl) e (by rw [henv, hbody]; exact hs hne)
+  | ok r =>
+      obtain ⟨st', out⟩ := r
+      rintro ⟨env', hx, g1, g2, g3⟩
+      exact ⟨_, runFn_method_ret _ fuel fn hmeth cls store _ (by rw [hpar]; rfl) env' _ (by rw [henv, hbody]; exact hx),
+        binRel_of_env cls st' env' g1 g2 g3⟩
+
+/-- (2) `MultiplicationOperation.update` (`self.last_output = []` at every call) against `binUpdateNL` -/
+theorem gen_mul_update (fuel k : Nat) (f : α → α → α) (hI : InterOnSpec α fuel k)
+    (hm : ∀ a b, callAt Gen.DenseOn.fns fuel (k + 1) "multiplication" [.val a, .val b] = .ok (.val (f a b)))
+    (st : BinSt α) (o : DV α) (hrel : BinRelNL "MultiplicationOperation" st o) (sl sr : ASig α)
+    (hfuel : binFuel st sl sr ≤ fuel) :
+    match binUpdateNL f st sl sr with
+    | .ok (st', out) =>
+        ∃ o', callAt Gen.DenseOn.fns fuel (k + 3) "MultiplicationOperation.update" [o, encSig sl, encSig sr] =
+            .ok (.list [o', encSig out]) ∧ BinRel "MultiplicationOperation" st' o'
+    | .error e => e ≠ .type →
+        callAt Gen.DenseOn.fns fuel (k + 3) "MultiplicationOperation.update" [o, encSig sl, encSig sr] = .error e := by
+  obtain ⟨store, rfl, s1, s2, hk⟩ := hrel
+  rw [callAt_fn _ _ _ _ Gen.DenseOn.MultiplicationOperation_update _ rfl]
+  obtain ⟨e1, e2, e3, _⟩ := env0_facts store hk (encSig sl) (encSig sr)
+  have hs := mulBody_spec fuel k hI f hm
+    (store ++ [("sample_left", encSig sl), ("sample_right", encSig sr)]) st sl sr
+    (getLoc_append_left s1) (getLoc_append_left s2) e1 e2 e3
+    (by unfold binFuel at hfuel; exact hfuel)
+  revert hs
+  cases hb : binUpdateNL f st sl sr with
+  | error e =>
+      intro hs hne
+      exact runFn_method_err _ fuel _ rfl _ store _ rfl e (hs hne)
+  | ok r =>
+      obtain ⟨st', out⟩ := r
+      rintro ⟨env', hx, g1, g2, g3⟩
+      exact ⟨_, runFn_method_ret _ fuel _ rfl _ store _ rfl env' _ hx, binRel_of_env _ st' env' g1 g2 g3⟩
+
+end Rtamt.Py.DnOn
